@@ -39,8 +39,10 @@ Definition sp_attach (t : spec) (fid afid : N) (ts : list tok) : spec * result :
     if decide (fid = NOFID) then (t, RErr EUnknown)
     else match tab t !! fid with
          | Some _ => (t, RErr EDup)
-         | None => if fs_err (tokn ts 0) then (t, RErr EFs)
-                   else (sp_fresh fid (t_dir (tokn ts 0)) None t, ROk 0)
+         | None => match nn_err (tokn ts 0) with
+                   | Some e => (t, RErr e)
+                   | None => (sp_fresh fid (t_dir (tokn ts 0)) None t, ROk 0)
+                   end
          end
   else (t, RErr EUnknown).     (* no fid is an auth fid *)
 
@@ -93,7 +95,7 @@ Definition sp_create (t : spec) (fid : N) (name : bstr) (mode : N) (ts : list to
       if negb (b_dir b) then (t, RErr ECrnondir) else
       let k := tokn ts 0 in
       if t_fail k =? 1 then (t, RErr EFs)
-      else if t_fail k =? 2 then (t, RErr ENil)
+      else if (t_fail k =? 2) || (t_fail k =? 4) then (t, RErr ENil)
       else if t_fail k =? 0 then
         if t_dir k then
           match nn_err (tokn ts 1) with
